@@ -1,6 +1,7 @@
 package p_map
 
 import (
+	"math"
 	"testing"
 
 	"pgregory.net/rapid"
@@ -47,6 +48,9 @@ func genReach(t *rapid.T, kinds []string) ReachCase {
 	isMap := isMapKind(c.Kind)
 	if !isMap {
 		c.Cap = max(1, rapid.SampledFrom([]int{c.Slots, c.Slots, c.Slots, 2 * c.Slots, c.Slots / 2, c.Slots / 10}).Draw(t, "cap"))
+		if rapid.IntRange(0, 9).Draw(t, "unbounded") == 0 { // a cache that never evicts: entries leave by Remove / Clear / expiry replacement only
+			c.Cap = rapid.SampledFrom([]int{math.MaxInt, math.MaxInt, math.MaxInt - 1, 1 << 40, 1 << 31, 1 << 16}).Draw(t, "hugeCap")
+		}
 	}
 	n := c.Slots
 	cnt := rapid.OneOf(rapid.IntRange(0, n), rapid.IntRange(0, min(n, 3)), rapid.IntRange(n-n/4, n))
